@@ -1,6 +1,7 @@
 package parser
 
 import (
+	"bytes"
 	"encoding/xml"
 	"io"
 
@@ -83,6 +84,7 @@ var emptyXmlNamespaces = make([]XmlNamespace, 0)
 
 type xmlParser struct {
 	xmlReader  *xml.Decoder
+	depth      int
 	namespaces []XmlNamespace
 	nsPos      int
 	attrs      []XmlAttribute
@@ -116,6 +118,7 @@ func (x *xmlParser) Pull() (node.Node, bool, error) {
 
 	switch n := tok.(type) {
 	case xml.StartElement:
+		x.depth++
 		x.namespaces = createXmlNamespaces(n.Attr)
 		x.attrs = createXmlAttrs(n.Attr)
 		return XmlElement{
@@ -123,6 +126,11 @@ func (x *xmlParser) Pull() (node.Node, bool, error) {
 			local: n.Name.Local,
 		}, false, nil
 	case xml.CharData:
+		if x.depth == 0 && len(bytes.Trim(n, " \t\r\n")) == 0 {
+			// white space between the top-level constructs is not character data
+			return x.Pull()
+		}
+
 		return XmlCharData{
 			value: (string)(n),
 		}, false, nil
@@ -140,9 +148,13 @@ func (x *xmlParser) Pull() (node.Node, bool, error) {
 			target: n.Target,
 			value:  string(n.Inst),
 		}, false, nil
+	case xml.Directive:
+		// <!DOCTYPE ...> is not a node (and not the end of an element)
+		return x.Pull()
 	}
 
 	//case xml.EndElement:
+	x.depth--
 	return nil, true, nil
 }
 
